@@ -376,7 +376,9 @@ def _add_axis_to_metadata(fn, axis_pos, axis_name, axis_col='params_axes'):
     if names is None:
       return names
     names = list(names)
-    names.insert(axis_pos, axis_name)
+    # a negative position counts from the end of the stacked (longer) tuple
+    pos = axis_pos if axis_pos >= 0 else len(names) + 1 + axis_pos
+    names.insert(pos, axis_name)
     return tuple(names)
 
   def insert_fn(x):
